@@ -310,6 +310,11 @@ class TapeHooks:
             st.mon.heap_store(m, st, name, path, v)
 
     def on_slot_store(self, m, st, loc, v):
+        # the crate function that fills the header array (owner of the header counter)
+        for fr in reversed(st.frames):
+            if m.p.insts[fr.inst]["local"]:
+                st.flags["slot_fn"] = fr.inst
+                break
         if st.mon is not None:
             st.mon.slot_store(m, st, loc, v)
 
@@ -599,9 +604,21 @@ def symbolise_counter(m, st):
 
     for l, v in fr.locals.items():
         map_value(v, look)
-    if len(found) != 1:
+    if len(found) == 1:
+        pos = found[0][3]
+    elif not found and st.flags.get("slot_fn") == fr.inst and getattr(st.mon, "nstored", None) is not None:
+        # index-style filling (`headers.get_mut(n)` instead of an iterator): the anchor is the
+        # number of headers stored so far, provided no iterator over the array exists anywhere
+        for f2 in st.frames:
+            for l, v in f2.locals.items():
+                map_value(v, look)
+        if found:
+            return
+        pos = st.mon.nstored
+        if pos[0] == "int":
+            pos = mk_int(pos[1], m.p.ptr_bytes * 8)
+    else:
         return
-    pos = found[0][3]
     pb = m.p.ptr_bytes * 8
     if pos[0] == "int":
         p_ = pos[1]
